@@ -1,6 +1,6 @@
 (* C07 - Clones are faithful, self-contained and independent of the original. Property theorems only. *)
 From Coq Require Import List.
-From SV Require Import Base.Base IR.State IR.NS IR.Ops Xform.Clone Proofs.CloneSmall Proofs.C01_full Proofs.Inv1a Proofs.Inv2a Proofs.CloneFrame Proofs.CloneStart Proofs.NsInv Proofs.InvW Proofs.UniqInv Proofs.CloneFaith Proofs.CloneFull Proofs.CloneNetInv Proofs.CloneDefStruct Proofs.CloneLibInv.
+From SV Require Import Base.Base IR.State IR.NS IR.Ops Xform.Clone Proofs.CloneSmall Proofs.C01_full Proofs.Inv1a Proofs.Inv2a Proofs.CloneFrame Proofs.CloneStart Proofs.NsInv Proofs.InvW Proofs.UniqInv Proofs.CloneFaith Proofs.CloneFull Proofs.CloneNetInv Proofs.CloneDefStruct Proofs.CloneLibInv Proofs.CloneAnyInv.
 Import ListNotations.
 
 (* cloning a wire: one fresh element, no pins listed, nothing else changes *)
@@ -80,6 +80,19 @@ Theorem C07_definition_clone_keeps_invariant : forall ops d,
   Inv (fst (fst (clone_definition s d))).
 Proof. exact clone_definition_reachable_inv. Qed.
 Print Assumptions C07_definition_clone_keeps_invariant.
+
+(* "the copy is well-formed" for every kind of root: in every state reachable by editing calls, a
+   completed clone() of ANY element - netlist (whose instances instantiate its own definitions),
+   library, definition, port, cable, wire, pin or instance - leaves the whole structural invariant of
+   C01/C02 in force for the whole store. For the small elements the side connections are cut (copied
+   pins point at no wire, copied wires list no pin, a copied instance keeps its outer pins without
+   wires and is registered with the definition it references). *)
+Theorem C07_clone_any_keeps_invariant : forall ops e,
+  let s := run ops init in
+  (kind_of s e = Some KNetlist -> Closed s e) ->
+  snd (fst (clone_any s e)) = None -> Inv (fst (fst (clone_any s e))).
+Proof. exact clone_any_reachable_inv. Qed.
+Print Assumptions C07_clone_any_keeps_invariant.
 
 (* the same for Library.clone: in every state reachable by editing calls a completed clone of a library
    leaves the whole structural invariant in force, with no further hypothesis: references of copied
